@@ -206,6 +206,155 @@ func runTermConj(c *Ctx, r *Reporter) {
 	for _, f := range []string{"Else", "IfBlock", "ElseIfBlocks"} {
 		r.Check(fields[f], fd.QName()+"#covers:"+f, p.Rel(fd.Decl.Pos()), "branch is part of the analysis", "(*IfStmt).alwaysTerminates never asks "+f)
 	}
+	terminationTable(p, pkg, r)
+}
+
+// terminationTable: the rest of the 'does every path end in return/break' analysis behind "missing return" and
+// "unreachable code". return and break always terminate; a loop never does (it may run zero times, and a break
+// leaves it); a conditional block terminates as its block does; a block and the program answer with the flag the
+// parser sets — only on the edge where the statement just parsed terminates, never cleared; and a function with a
+// result type whose body does not terminate is reported, exactly on that conjunction.
+func terminationTable(p *Program, pkg *packages.Package, r *Reporter) {
+	want := map[string]string{"ReturnStmt": "true", "BreakStmt": "true", "WhileStmt": "false", "ForStmt": "false", "BlockStatement": "field:alwaysTerms", "Program": "field:alwaysTerms", "ConditionalBlock": "block"}
+	seen := map[string]bool{}
+	for _, fd := range Funcs(pkg) {
+		if fd.Obj.Name() != "alwaysTerminates" {
+			continue
+		}
+		rn := recvNamed(fd.Obj)
+		if rn == nil {
+			continue
+		}
+		kind := rn.Obj().Name()
+		w, ok := want[kind]
+		if !ok {
+			if kind != "IfStmt" {
+				r.Viol("pkg/parser.(*"+kind+").alwaysTerminates#kind", p.Rel(fd.Decl.Pos()), "a node kind takes part in the termination analysis that the table of this rule does not know: decide whether it always ends in return/break")
+			}
+			continue
+		}
+		seen[kind] = true
+		sf := p.SSAFunc(fd.Obj)
+		got := "?"
+		rets := returnsOf(sf)
+		if len(rets) == 1 && len(rets[0].Results) == 1 {
+			switch v := rets[0].Results[0].(type) {
+			case *ssa.Const:
+				if v.Value != nil {
+					got = v.Value.ExactString()
+				}
+			case *ssa.UnOp:
+				if fa, ok := v.X.(*ssa.FieldAddr); ok {
+					_, f := fieldAddrInfo(fa)
+					got = "field:" + f
+				}
+			case *ssa.Call:
+				if sc := v.Call.StaticCallee(); sc != nil && sc.Name() == "alwaysTerminates" && mentionsField(v.Call.Args[0], "Block", 4) {
+					got = "block"
+				}
+			}
+		}
+		why := map[string]string{"true": "always ends the enclosing function or loop", "false": "may run zero times and can be left by break: never counts as terminating", "field:alwaysTerms": "answers with the flag the parser maintains", "block": "terminates as its block does"}[w]
+		r.Check(got == w, "pkg/parser.(*"+kind+").alwaysTerminates#kind", p.Rel(fd.Decl.Pos()), why, fmt.Sprintf("(*%s).alwaysTerminates answers %s, expected %s: %s — otherwise `missing return` / `unreachable code` are reported for valid programs or not reported for functions that fall off their end", kind, got, w, why))
+	}
+	for k := range want {
+		if !seen[k] {
+			r.Viol("pkg/parser.(*"+k+").alwaysTerminates#kind", "pkg/parser/ast.go", "(*"+k+").alwaysTerminates not found: the node kind no longer takes part in the termination analysis")
+		}
+	}
+	// the flag
+	nflag := 0
+	for _, fn := range ssaFuncsOf(p, pkg) {
+		k := 0
+		for _, b := range fn.Blocks {
+			for _, ins := range b.Instrs {
+				st, ok := ins.(*ssa.Store)
+				if !ok {
+					continue
+				}
+				fa, ok := st.Addr.(*ssa.FieldAddr)
+				if !ok {
+					continue
+				}
+				if _, f := fieldAddrInfo(fa); f != "alwaysTerms" {
+					continue
+				}
+				nflag++
+				k++
+				construct := fmt.Sprintf("%s#terminates-flag[%d]", ssaQName(fn), k)
+				kc, isConst := st.Val.(*ssa.Const)
+				if !isConst || kc.Value == nil || kc.Value.ExactString() != "true" {
+					r.Viol(construct, p.Rel(instrPos(st)), "the terminates flag of a block is assigned something other than the constant true: once a statement terminates, the rest of the block is unreachable whatever follows")
+					continue
+				}
+				good := false
+				for d := b; d != nil; d = d.Idom() {
+					id := d.Idom()
+					if id == nil || len(id.Instrs) == 0 {
+						continue
+					}
+					ifi, ok := id.Instrs[len(id.Instrs)-1].(*ssa.If)
+					if !ok {
+						continue
+					}
+					if call, ok := ifi.Cond.(*ssa.Call); ok && call.Call.StaticCallee() != nil && (call.Call.StaticCallee().Name() == "alwaysTerms" || call.Call.StaticCallee().Name() == "alwaysTerminates") && edgeDominates(id, 0, b) {
+						good = true
+					}
+				}
+				r.Check(good, construct, p.Rel(instrPos(st)), "set on the edge where the statement just parsed terminates", "the terminates flag is set on a path that is not the true edge of alwaysTerms(stmt): a block counts as terminating although its statements do not")
+			}
+		}
+	}
+	if nflag == 0 {
+		r.Viol("pkg/parser#terminates-flag", "pkg/parser/parser.go", "no block ever records that one of its statements terminates")
+	}
+	// missing return
+	if fd := FindFunc(pkg, "(*parser).parseFunc"); fd != nil {
+		sf := p.SSAFunc(fd.Obj)
+		var report *ssa.Call
+		for _, b := range sf.Blocks {
+			for _, ins := range b.Instrs {
+				if call, ok := ins.(*ssa.Call); ok && call.Call.StaticCallee() != nil && call.Call.StaticCallee().Name() == "appendError" && len(call.Call.Args) == 2 {
+					if k, ok := call.Call.Args[1].(*ssa.Const); ok && k.Value != nil && strings.Contains(k.Value.ExactString(), "missing return") {
+						report = call
+					}
+				}
+			}
+		}
+		good := false
+		if report != nil {
+			typed, falls := false, false
+			for d := report.Block(); d != nil; d = d.Idom() {
+				id := d.Idom()
+				if id == nil || len(id.Instrs) == 0 {
+					continue
+				}
+				ifi, ok := id.Instrs[len(id.Instrs)-1].(*ssa.If)
+				if !ok {
+					continue
+				}
+				switch cnd := ifi.Cond.(type) {
+				case *ssa.BinOp:
+					if cnd.Op == token.NEQ && (loadsField(cnd.X, "ReturnType") || loadsField(cnd.Y, "ReturnType")) && edgeDominates(id, 0, report.Block()) {
+						typed = true
+					}
+				case *ssa.Call:
+					if sc := cnd.Call.StaticCallee(); sc != nil && sc.Name() == "alwaysTerminates" && edgeDominates(id, 1, report.Block()) {
+						falls = true
+					}
+				case *ssa.UnOp:
+					if c2, ok := cnd.X.(*ssa.Call); ok && cnd.Op == token.NOT && c2.Call.StaticCallee() != nil && c2.Call.StaticCallee().Name() == "alwaysTerminates" && edgeDominates(id, 0, report.Block()) {
+						falls = true
+					}
+				}
+			}
+			// and nothing else stands between the two tests and the report: the report's block is the direct target
+			good = typed && falls && len(report.Block().Preds) == 1
+		}
+		r.Check(good, fd.QName()+"#missing-return", p.Rel(fd.Decl.Pos()), "a function with a result type whose body does not always terminate is reported", "parseFunc does not report `missing return` exactly when the function has a result type and its body does not always terminate: such a function returns no value at run time, which the evaluator hands on as a value of no type")
+	} else {
+		r.Undecided("(*parser).parseFunc not found")
+	}
 }
 
 // ---------------------------------------------------------------------------
